@@ -1214,8 +1214,9 @@ def normalise(f, funcs, recorded_funcs, recorded_locals, global_ptrs=()):
     n += countdown_while(f)
     n += countdown_loops(f)
     cur_locals = C.c_locals(f)
-    if recorded_locals and (len(cur_locals) > len(recorded_locals) or (set(cur_locals) - set(recorded_locals) and set(cur_locals) & set(recorded_locals))):
-        # (a function whose locals were all renamed and none added has no new scalars: its locals are paired position by position)
+    if recorded_locals and len(cur_locals) > len(recorded_locals):
+        # (a function with as many locals as the confirmed form has no new scalars, whatever they are called: renamed locals are paired
+        # position by position afterwards)
         C.c_inline_new_scalars(f, set(recorded_locals))
         n += forward_scalars(f, recorded_locals)
         C.c_inline_new_scalars(f, set(recorded_locals))
